@@ -162,6 +162,59 @@ def check_props(pid):
     return res
 
 
+def coqchk(pid):
+    """independent re-check of the compiled property file and everything it depends on (thorough tier)"""
+    rc, out = sh('timeout 1500 coqchk -silent -o -Q . PC PC.Props.%s' % pid, cwd=COQ, timeout=1600)
+    m = re.search(r'\* Axioms:(.*?)\n\s*\n\* Constants', out, flags=re.S)
+    axioms = ' '.join(m.group(1).split()) if m else '<unparsed>'
+    return rc == 0, axioms, out[-1500:]
+
+
+def coq_val(txt):
+    """driver text of ONE value -> Coq term of type val"""
+    toks = txt.replace('[', ' [ ').replace(']', ' ] ').split()
+    pos = 0
+
+    def val():
+        nonlocal pos
+        t = toks[pos]
+        pos += 1
+        if t == '[':
+            items = []
+            while toks[pos] != ']':
+                items.append(val())
+            pos += 1
+            return '(VL [' + '; '.join(items) + '])'
+        if t[0] == 'E':
+            return '(VE (%s))' % t[1:]
+        return '(VZ (%s))' % t
+    out = []
+    while pos < len(toks):
+        out.append(val())
+    return out
+
+
+def golden_cases(pid, log):
+    """evaluate the same calls inside Coq (vm_compute on Model.Dispatch.run) and compare with what the extracted driver answered"""
+    if not log:
+        return True, 0, 'no model calls logged'
+    rows = []
+    for name, args, res in log:
+        a = coq_val(args)
+        r = coq_val(res)
+        rows.append('("%s", VL [%s], %s)' % (name, '; '.join(a), r[0]))
+    src = ('From Coq Require Import String ZArith List.\nFrom PC Require Import Model.Dispatch.\nImport ListNotations.\nOpen Scope string_scope.\nOpen Scope Z_scope.\n'
+           'Definition cases : list (string * val * val) :=\n  [' + ';\n   '.join(rows) + '].\n'
+           'Eval vm_compute in (length (filter (fun c : string * val * val => negb (val_eqb (run (fst (fst c)) (snd (fst c))) (snd c))) cases)).\n')
+    d = os.path.join(BUILD, 'golden')
+    os.makedirs(d, exist_ok=True)
+    f = os.path.join(d, 'Golden_%s.v' % pid)
+    open(f, 'w').write(src)
+    rc, out = sh('ulimit -s unlimited; timeout 900 coqc -Q %s PC %s' % (COQ, f), cwd=d, timeout=1000)
+    ok = rc == 0 and re.search(r'=\s*0%?n?a?t?\s*\n?\s*:\s*nat', out) is not None
+    return ok, len(rows), out[-600:]
+
+
 # ------------------------------------------------------------------ values
 def enc(v):
     """python value -> driver text"""
@@ -226,6 +279,7 @@ class Model:
     def __init__(self, driver):
         self.driver = driver
         self.calls = 0
+        self.log = []          # first calls, kept for the in-Coq cross-check of the extraction (thorough tier)
         self.p = subprocess.Popen(['/bin/bash', '-c', 'ulimit -s unlimited 2>/dev/null; exec ' + driver],
                                   stdin=subprocess.PIPE, stdout=subprocess.PIPE, text=True, bufsize=1)
 
@@ -237,6 +291,8 @@ class Model:
         if not out:
             raise RuntimeError('model driver died on: ' + line[:300])
         self.calls += 1
+        if len(self.log) < 400 and len(line) < 3000 and len(out) < 3000 and self.calls % 7 == 1:
+            self.log.append((name, line[len(name) + 1:].strip(), out.strip()))
         return dec(out)
 
     def batch(self, cases):
